@@ -69,18 +69,28 @@ def report(prop, mod, acc: core.Acc, findings: core.Findings, confirm=True):
             seen_known.append(sig)
             continue
         v = lst[0]
+        confirmed = None
         if confirm and hasattr(mod, 'replay'):
-            try:
-                again = mod.replay(core.unjson(core.jsonable(v['record'])))
-            except Exception:
-                print('HARNESS-ERROR: replay raised for', sig)
-                traceback.print_exc()
-                sys.exit(2)
-            sigs = {s for s, _ in again}
-            if sig not in sigs:
-                print(f'HARNESS-ERROR: violation {sig!r} did not reproduce on replay '
-                      f'(got {sorted(sigs)}); not reported as a violation')
-                sys.exit(2)
+            # every recorded occurrence is tried: the replay function works from the record alone, in this process
+            confirmed = False
+            tried = []
+            for cand in lst:
+                try:
+                    again = mod.replay(core.unjson(core.jsonable(cand['record'])))
+                except Exception:
+                    tried.append('replay raised ' + traceback.format_exc().splitlines()[-1])
+                    continue
+                sigs = {s for s, _ in again}
+                if sig in sigs:
+                    confirmed = True
+                    v = cand
+                    break
+                tried.append(f'replay observed {sorted(sigs)[:3]}')
+            if not confirmed:
+                # The exploration saw it; the stand-alone replay did not. It is still reported (a violation that is
+                # swallowed would be worse than one whose replay file needs the explorer to reproduce) and marked.
+                print(f'NOTE: {sig!r} was observed {acc.viol_count[sig]}x by the exploration but the stand-alone replay did not '
+                      f'reproduce it ({"; ".join(tried)[:300]}); re-run the check to reproduce')
         h = hashlib.sha1(sig.encode()).hexdigest()[:12]
         d = core.OUT / 'replay' / prop
         d.mkdir(parents=True, exist_ok=True)
@@ -90,6 +100,7 @@ def report(prop, mod, acc: core.Acc, findings: core.Findings, confirm=True):
             'record': core.jsonable(v['record']),
             'harness_version': core.HARNESS_VERSION,
             'occurrences_this_run': acc.viol_count[sig],
+            'confirmed_by_replay': confirmed,
         }, indent=1) + '\n')
         print(f'VIOLATION property={prop} replay={p}')
         print(f'  signature: {sig}')
